@@ -669,6 +669,10 @@ class Sum(Box):
             else "Sum([], dom={}, cod={})".format(repr(dom), repr(cod))
         super().__init__(name, dom, cod)
 
+    @property
+    def free_symbols(self):
+        return {x for term in self.terms for x in term.free_symbols}
+
     def __eq__(self, other):
         if not isinstance(other, Sum):
             return False
